@@ -53,6 +53,7 @@ type Contract struct {
 	Assumed  bool
 	Lemma    bool
 	FieldFunc bool // contract of a function-typed struct field (pure, assumed)
+	FuncType  bool // assumed contract of the values of a named function type
 	Props    []string
 	Requires []*Clause
 	Ensures  []*Clause
@@ -105,7 +106,7 @@ type ContractSet struct {
 	Assumes   []string // textual list of assumed contracts (for evidence)
 }
 
-var keywordRe = regexp.MustCompile(`^(package|opaque|any|func|fieldfunc|assume|lemma|ghost|pred|spec|requires|ensures|modifies|panics_if|let|loop|invariant|free_invariant|decreases|exit_assert|props|encoder|nopanic|may_panic|return_assert|cover|bounded|assert|opt)\b`)
+var keywordRe = regexp.MustCompile(`^(package|opaque|any|functype|func|fieldfunc|assume|lemma|ghost|pred|spec|requires|ensures|modifies|panics_if|let|loop|invariant|free_invariant|decreases|exit_assert|props|encoder|nopanic|may_panic|return_assert|cover|bounded|assert|opt)\b`)
 
 // readContractFile extracts //@ lines and parses them.
 func (cs *ContractSet) readContractFile(path, pkgPath string) error {
@@ -162,7 +163,7 @@ func (cs *ContractSet) readContractFile(path, pkgPath string) error {
 			continue
 		}
 		switch kw {
-		case "func", "assume", "lemma", "fieldfunc":
+		case "func", "assume", "lemma", "fieldfunc", "functype":
 			hdr := rest
 			assumed := kw == "assume"
 			if assumed {
@@ -185,6 +186,12 @@ func (cs *ContractSet) readContractFile(path, pkgPath string) error {
 			c.Lemma = kw == "lemma"
 			c.FieldFunc = kw == "fieldfunc"
 			if c.FieldFunc {
+				c.Assumed = true
+			}
+			// functype T(params) (results): assumed contract of every value of the
+			// named function type T (calls through such a value use it)
+			c.FuncType = kw == "functype"
+			if c.FuncType {
 				c.Assumed = true
 			}
 			c.Props = props
